@@ -64,10 +64,11 @@ def validate(ctx, segs, mode, dev, strict, label, nfiles=2, nprogs=2, invariants
         "Progs": S(range(1, nprogs + 1)), "Files": S(range(1, nfiles + 1)), "MaxLines": big, "MaxLoads": big,
         "MaxStamp": big, "DirectInput": True, DEV: dev, "KeepLast": True, "TraceFile": "trace.ndjson",
         "SegFile": "segs.ndjson", "Mode": mode, "Strict": strict, "Guarded": not invariants},
-        invariants=["Reached"] + (["Good"] if invariants else []), view="TView", check_deadlock=False)
+        invariants=["Reached"] + (["Progress", "Good"] if invariants else []), view="TView", check_deadlock=False)
     r = vlib.tlc(ctx, "TraceCounters", cfg, label=label, timeout=1500, expect_violation=invariants,
                  extra_files={"trace.ndjson": "\n".join(lines) + "\n", "segs.ndjson": "\n".join(bounds) + "\n"})
     acc = {c["accept"] for c in r.cases if "accept" in c}
+    r.stuck_at = max([c["at"] for c in r.cases if "at" in c] + [0])      # diagnosis runs: first event no behaviour emits
     return {k for k in range(len(segs)) if (k + 1) not in acc}, r
 
 
@@ -236,8 +237,10 @@ def run(ctx):
             continue
         s = src[k]
         _, dr = validate(ctx, [segs[k]], "driven", DEV in opened, DEV not in opened, "trace-diagnose", invariants=True)
+        at = dr.stuck_at if dr else 0
+        ev = segs[k][at - 1] if 0 < at <= len(segs[k]) else {}
         why = ("invariant %s violated" % dr.violated) if dr and dr.violated else \
-            "an event or an expvar reading is not what Counters.tla allows"
+            "Counters.tla allows no action for event #%d %s" % (at, json.dumps({a: b for a, b in ev.items() if b not in (0, "", [], -1)}, sort_keys=True))
         again = drive(ctx, binary, s["mode"], 1, first=s["run"])[0]
         rj, _ = validate(ctx, [again["trace"]], "driven", DEV in opened, DEV not in opened, "trace-recheck")
         if not rj:
@@ -254,7 +257,7 @@ def run(ctx):
     # ---- the repository's own tests: hook events only -----------------------------------------
     if big:
         tsegs, nf, cmd = gotest_segments(ctx, ["./internal/runtime/", "./internal/mtail/", "./internal/tailer/"],
-                                         skip="TestExamplePrograms|TestFilePipeStreamComparison|Benchmark")
+                                         skip="TestExamplePrograms|Comparison|Benchmark")
     else:
         tsegs, nf, cmd = gotest_segments(ctx, ["./internal/mtail/"],
                                          run="TestBasicTail|TestNewProg|TestProgramReload|TestMultipleLines|TestPartialLine|TestTruncated|TestLogRotation")
